@@ -369,6 +369,11 @@ class Node {
   void dependsOnOneNode(Node& node) {
     node.dependents_.emplace_back(this);
     numPredecessors_++;
+    // Keep the incomplete-predecessor count consistent while the graph is being built, so that a
+    // graph can be executed without an explicit setAllNodesIncomplete() first.
+    if (!isCompleted() && !node.isCompleted()) {
+      numIncompletePredecessors_.fetch_add(1, std::memory_order_relaxed);
+    }
   }
 
   static constexpr size_t kCompleted = std::numeric_limits<size_t>::max();
